@@ -21,7 +21,7 @@ import threading
 
 import vlib
 
-SW = "CONSTANTS ControlsExisting = TRUE\n  RandomFresh = TRUE\n  OpenReturns = TRUE\n"
+SW = "CONSTANTS ControlsExisting = TRUE\n  RandomFresh = TRUE\n  OpenReturns = TRUE\n  OwnsOnlyCreated = TRUE\n"
 
 
 class Lane:
@@ -52,13 +52,14 @@ def mc_cfg(ops, handles, withset=False, emit=False, check=True, more=False, **sw
     return s + "CHECK_DEADLOCK FALSE\n"
 
 
+TRACE_CFG = SW + "SPECIFICATION TSpec\nINVARIANTS OneOwner\nCONSTRAINT Mark\nPOSTCONDITION Report\nCHECK_DEADLOCK FALSE\n"
 RACE_CFG = "CONSTANTS G = 3\n  K = 2\n  Names = {\"x\", \"y\"}\n  AtomicMkdir = %s\nSPECIFICATION Spec\nINVARIANTS OneOwner OneCreator PreSafe OwnerKeeps\nCHECK_DEADLOCK FALSE\n"
 
 
 def mc(ctx0, errs):
     try:
         ctx = Lane(ctx0, 100)
-        r = ctx.tlc("Cgroup_MC", cfg=mc_cfg(ctx0.pick(6, 7), 5), workers=4, timeout=900)
+        r = ctx.tlc("Cgroup_MC", cfg=mc_cfg(ctx0.pick(5, 6), 5), workers=4, timeout=900)
         ctx0.tlc_ok("Cgroup_MC", r)
         st, tr = r.distinct, r.generated
         r = ctx.tlc("Cgroup_Race", cfg=RACE_CFG % "TRUE", workers=2, timeout=600)
@@ -67,7 +68,7 @@ def mc(ctx0, errs):
         ctx0.cov["mc_states"], ctx0.cov["mc_transitions"] = st, tr
         # sanity of the models (thorough): each defective design must be caught
         if not ctx0.quick():
-            for sw in ("ControlsExisting", "RandomFresh", "OpenReturns"):
+            for sw in ("ControlsExisting", "RandomFresh", "OpenReturns", "OwnsOnlyCreated"):
                 b = ctx.tlc("Cgroup_MC", cfg=mc_cfg(5, 4, **{sw: "FALSE"}), workers=2, timeout=600)
                 if b.invariant != "ImplRefines":
                     raise vlib.Inconclusive("model sanity: %s = FALSE should violate ImplRefines:\n%s" % (sw, b.tail(20)))
@@ -76,7 +77,8 @@ def mc(ctx0, errs):
                 raise vlib.Inconclusive("model sanity: AtomicMkdir = FALSE should violate OneOwner:\n%s" % b.tail(20))
         ctx0.cov["model_detects"] = ["stat-then-MkdirAll -> two owners of one directory (Cgroup_Race)",
                                      "v1 handle of an existing group acts on nothing -> AddProc moves nobody",
-                                     "Random returns an existing group", "OpenExisting(v1) returns no handle"]
+                                     "Random returns an existing group", "OpenExisting(v1) returns no handle",
+                                     "pre-existing directory of a later hierarchy recorded as created -> Destroy removes a foreign group"]
     except Exception as e:  # noqa
         errs.append(e)
 
@@ -135,7 +137,7 @@ def run1(ctx, nonce):
         try:
             g = Lane(ctx, 300).tlc("Cgroup_Gen", cfg="CONSTANT WithRace3 = %s\nINIT Init\nNEXT Next\n" % ctx.pick("FALSE", "TRUE"), timeout=600)
             ctx.tlc_ok("Cgroup_Gen", g)
-            for n in ("race2", "race3", "units", "fix"):
+            for n in ("race2", "race3", "units", "fix", "mixed"):
                 gen[n] = ctx.read_ndjson(os.path.join(g.dir, n + ".ndjson"))
         except Exception as e:  # noqa
             gen["err"] = e
@@ -144,9 +146,13 @@ def run1(ctx, nonce):
     # ---- the cases of this run
     hcases = []
     for h in hist["h"]:
-        ctls = sorted(h[0]["names"])
-        h[0]["names"] = []
+        top = [o for o in h if o["op"] == "top"][0]
+        ctls = sorted(top["names"])
+        top["names"] = []
         hcases.append({"ver": 2 if ctls == ["u"] else 1, "ctls": ctls, "ops": h})
+    # groups pre-existing in a subset of the v1 hierarchies: every generated directed history
+    for m in gen["mixed"]:
+        hcases.append({"ver": 1, "ctls": sorted(m["ctls"]), "ops": m["ops"]})
     race = list(gen["race2"])
     r3 = list(gen["race3"])
     ctx.rng.shuffle(r3)
@@ -206,8 +212,9 @@ def run1(ctx, nonce):
     ctx.sample(uobs[0])
     ctx.sample(fobs[len(fobs) // 2])
     ctx.assumptions += [
-        "one controller set per history (cpu+memory on v1; no controllers on the cgroup2 tree of this host), so a group exists in all hierarchies or in none; mixed states are outside the judged domain",
-        "no calls on a handle after its successful Destroy, none on a handle whose group is gone (client errors)",
+        "existence is tracked per hierarchy: groups may pre-exist in any subset of the v1 hierarchies (administrator's mkdir by the driver); in such a mixed state Existing() may be either value, ownership and Destroy are judged per hierarchy; a handle that answered Existing() may leave what it created in place",
+        "Random is only driven with forced names that exist in all hierarchies or in none; API calls only on handles whose group exists in every hierarchy",
+        "one Destroy per handle (no retry after a failed one), no calls on a handle after Destroy (client errors)",
         "concurrent v1 creators: a loser that is told 'existing' may still have created the directory of a later controller; Destroy of the owner is then only required to remove what it created (race traces use the lenient Destroy rule)",
         "limits: the value passed appears verbatim in the limit file (cfs quota/period in microseconds although the interface comment says ns); memory limits are page multiples",
         "memory.peak / pids.peak / memory.current parsing is exercised on fixture directories (these controllers are bound to v1 on this host); CPU tolerance: factor 2 and 50 ms against the burner's rusage",
@@ -229,7 +236,7 @@ def validate(ctx, traces, uobs, fobs):
 
     def tr(k, part):
         try:
-            res[k] = Lane(ctx, 600 + 10 * k).tlc("Cgroup_Trace", files={"traces.ndjson": part}, timeout=1200, heap="6g")
+            res[k] = Lane(ctx, 600 + 10 * k).tlc("Cgroup_Trace", cfg=TRACE_CFG, files={"traces.ndjson": part}, timeout=1200, heap="6g")
         except Exception as e:  # noqa
             res[k] = e
 
